@@ -1,24 +1,36 @@
 (* Properties/C12.v — C12: schema operations are pure (deterministic under map order, argument-
-   preserving, history-free).  ONLY statements; proofs in Proofs/C12{Order,Lookup,Schema,Schema2,Value,Value2,History,Main}.v.
+   preserving, history-free).  ONLY statements; proofs in Proofs/C12{Order,Lookup,Schema,Schema2,Value,Value2,History,Main}.v
+   and Proofs/C12Result{Base,Unser,Ser,Wf,Main}.v.
 
    FULL STATEMENTS (kept visible; what is proved below is marked):
 
-   C12_order_independent :
+   C12_order_independent (as first written) :
      forall f e e' s s' v v', perm_env e e' -> perm_schema s s' -> perm_val v v' ->
        wf_schema e s = true -> no_key_collision v = true ->
        agree (unser f e s v) (unser f e' s' v')  /\  ... validate ... serialize ... compat ...
      where agree o o' := (is_ok o = is_ok o') /\ (forall r r', o = Ok r -> o' = Ok r' -> perm_val r r').
-     PROVED, for the FIRST component of agree (the accept / reject decision), all four operations, both sides at
-     once: C12_order_independent_verdict_partial.  It composes C12_schema_order_all_operations (order of every
-     association list of the schema and of the environment's tables; C12_unserialize_schema_order needs
-     well-formedness on one side only) with C12_value_order_all_operations (order of the entries of every map
-     of the argument, at any depth, under no_key_collision).  C12_order_independent_partial and
-     C12_schema_lookups_order_free are the loop- and lookup-level facts underneath (for enum value lists the
-     whole OUTCOME is identical).  C12_collision_refuted (known finding D19): with two keys that read the
-     same, two orders of one argument give results that are not equal up to permutation.
-     NOT PROVED: the second component - that the two RESULTS are equal up to the order of map entries
-     (map_set / raw_set folds under Permutation); it is carried by the c12pure family (20 evaluations of
-     every call on freshly built maps, canonical comparison).
+     The FIRST component of agree (the accept / reject decision) is PROVED under exactly these hypotheses, all four
+     operations, both sides at once: C12_order_independent_verdict_partial.  It composes
+     C12_schema_order_all_operations (order of every association list of the schema and of the environment's
+     tables; C12_unserialize_schema_order needs well-formedness on one side only) with
+     C12_value_order_all_operations (order of the entries of every map of the argument, at any depth, under
+     no_key_collision).  C12_order_independent_partial and C12_schema_lookups_order_free are the loop- and
+     lookup-level facts underneath (for enum value lists the whole OUTCOME is identical).
+     The SECOND component (the two RESULTS are equal up to the order of map entries) is FALSE under
+     `no_key_collision v` alone: C12_result_refuted (two string keys "1" and "01" under an int-keyed map: both
+     read as 1, the boolean class predicate of D19 compares key TEXTS and does not see it; the Go code behaves the
+     same: 400 runs of Unserialize(map[string]any{"1":"a","01":"b"}) give map[1:a] 48 times and map[1:b] 352
+     times).  C12_collision_refuted (known finding D19) is the instance the predicate does see.
+     PROVED with the exact hypothesis in its place: C12_order_independent - verdict AND results, Unserialize and
+     Serialize (Validate and ValidateCompatibility return no value), under `keys_distinct Ub v`: at every map of
+     the argument, at any depth, no two keys can be read as the same key by a conversion the operations apply to
+     map keys (the int mapper under a units definition accepted by Ub, the string mapper, reflect's conversions to
+     int64 / string, the `any` conversion); `map_key_units Ub e s`: the int-keyed maps of the schema read their keys
+     under units accepted by Ub (Ub := any_units quantifies over every units definition, Ub := no_units is the
+     schema without units on map keys); `defaults_distinct Ub`: the same for the decoded property defaults.
+     The results are related by perm_val (equal up to the order of map entries at any depth).  Well-formedness is
+     needed on the first description only: perm_env / perm_schema preserve wf_schema (C12_wf_order_free), so
+     C12_order_independent and C12_order_independent_verdict assume `wf_schema e s` alone.
 
    C12_history_free :
      for the state-passing variant with ALL lazily filled caches explicit (decoded defaults per object,
@@ -34,7 +46,8 @@ From Coq Require Import Permutation Lia.
 From Verif Require Import Base.Prelude Base.Str Base.Float Base.GoVal
   Schema.Regex Schema.Units Schema.Syntax Schema.Ops Schema.Wf Schema.Perm
   Proofs.C12Order Proofs.C12Lookup Proofs.C12Schema Proofs.C12Schema2 Proofs.C12Value Proofs.C12Value2
-  Proofs.C12History Proofs.C12Main.
+  Proofs.C12History Proofs.C12Main
+  Proofs.C12ResultBase Proofs.C12ResultUnser Proofs.C12ResultSer Proofs.C12ResultWf Proofs.C12ResultMain.
 Open Scope string_scope.
 
 Section C12.
@@ -111,6 +124,63 @@ Theorem C12_order_independent_verdict_partial : forall f e e' s s' v v',
   is_ok (compat words pu f e s v) = is_ok (compat words pu f e' s' v').
 Proof. exact (c12_order_verdict words pu). Qed.
 
+(* THE RESULT HALF.  Unserialize: two descriptions of one schema (any order of properties, enum values, one-of
+   members, scope and namespace tables) and two arguments that differ in the order of the entries of their maps
+   (any depth), keys pairwise distinct: the two results are equal up to the order of map entries.  By induction on
+   the fuel; map_set folds over converted entries (key conversion is injective on distinct keys), raw_set folds over
+   properties (lookups determine an association list with unique keys up to order), the discriminator put back by a
+   one-of, defaults, the single-property shorthand, references and scopes. *)
+Theorem C12_unserialize_results_order_free : forall (Ub : option units -> bool) f e e' s s' v v' r r',
+  perm_env e e' -> nodup_env e = true -> perm_schema s s' -> perm_val v v' ->
+  wf_schema e s = true -> map_key_units Ub e s = true ->
+  defaults_distinct Ub (e_or e) -> keys_distinct Ub v ->
+  unser words pu f e s v = Ok r -> unser words pu f e' s' v' = Ok r' -> perm_val r r'.
+Proof. exact (c12_unser_result words pu). Qed.
+
+(* ... and Serialize (no units and no defaults enter) *)
+Theorem C12_serialize_results_order_free : forall (Ub : option units -> bool) f e e' s s' v v' r r',
+  perm_env e e' -> nodup_env e = true -> perm_schema s s' -> perm_val v v' ->
+  wf_schema e s = true -> keys_distinct Ub v ->
+  serialize words pu f e s v = Ok r -> serialize words pu f e' s' v' = Ok r' -> perm_val r r'.
+Proof. exact (c12_ser_result words pu). Qed.
+
+(* well-formedness is a property of the schema up to the order of its association lists *)
+Theorem C12_wf_order_free : forall e e' s s',
+  perm_env e e' -> nodup_env e = true -> perm_schema s s' -> wf_schema e s = true -> wf_schema e' s' = true.
+Proof. exact perm_wf_schema. Qed.
+
+(* ... so the verdict half needs the hypothesis on one description only *)
+Theorem C12_order_independent_verdict : forall f e e' s s' v v',
+  perm_env e e' -> nodup_env e = true -> perm_schema s s' -> perm_val v v' ->
+  wf_schema e s = true -> no_key_collision v = true ->
+  is_ok (unser words pu f e s v) = is_ok (unser words pu f e' s' v') /\
+  is_ok (validate words pu f e s v) = is_ok (validate words pu f e' s' v') /\
+  is_ok (serialize words pu f e s v) = is_ok (serialize words pu f e' s' v') /\
+  is_ok (compat words pu f e s v) = is_ok (compat words pu f e' s' v').
+Proof. exact (c12_order_verdict_one_side words pu). Qed.
+
+(* verdict AND results, every operation, both sides at once *)
+Theorem C12_order_independent : forall (Ub : option units -> bool) f e e' s s' v v',
+  perm_env e e' -> nodup_env e = true -> perm_schema s s' -> perm_val v v' ->
+  wf_schema e s = true -> no_key_collision v = true ->
+  map_key_units Ub e s = true -> defaults_distinct Ub (e_or e) -> keys_distinct Ub v ->
+  (is_ok (unser words pu f e s v) = is_ok (unser words pu f e' s' v') /\
+   is_ok (validate words pu f e s v) = is_ok (validate words pu f e' s' v') /\
+   is_ok (serialize words pu f e s v) = is_ok (serialize words pu f e' s' v') /\
+   is_ok (compat words pu f e s v) = is_ok (compat words pu f e' s' v')) /\
+  (forall r r', unser words pu f e s v = Ok r -> unser words pu f e' s' v' = Ok r' -> perm_val r r') /\
+  (forall r r', serialize words pu f e s v = Ok r -> serialize words pu f e' s' v' = Ok r' -> perm_val r r').
+Proof. exact (c12_order_independent words pu). Qed.
+
+(* the result half is FALSE under the boolean class predicate alone: map[string]any{"1": "a", "01": "b"} under an
+   int-keyed map schema — no_key_collision holds (the key texts differ), both keys read as 1, two orders give two
+   results that are not equal up to permutation (the same defect class as D19, outside its class predicate) *)
+Theorem C12_result_refuted :
+  exists e s v1 v2 r1 r2,
+    perm_val v1 v2 /\ no_key_collision v1 = true /\ wf_schema e s = true /\ nodup_env e = true /\
+    unser words pu 10 e s v1 = Ok r1 /\ unser words pu 10 e s v2 = Ok r2 /\ ~ perm_val r1 r2.
+Proof. exact (c12_result_refuted words pu). Qed.
+
 (* D19 (known finding): map[any]any{int64 1: "a", "1": "b"} under an int-keyed map schema — two orders of
    the same argument, two different results *)
 Theorem C12_collision_refuted :
@@ -153,6 +223,12 @@ Print Assumptions C12_unserialize_schema_order.
 Print Assumptions C12_schema_order_all_operations.
 Print Assumptions C12_value_order_all_operations.
 Print Assumptions C12_order_independent_verdict_partial.
+Print Assumptions C12_unserialize_results_order_free.
+Print Assumptions C12_serialize_results_order_free.
+Print Assumptions C12_wf_order_free.
+Print Assumptions C12_order_independent_verdict.
+Print Assumptions C12_order_independent.
+Print Assumptions C12_result_refuted.
 Print Assumptions C12_collision_refuted.
 Print Assumptions C12_oracles_pointwise.
 Print Assumptions C12_history_free_partial.
@@ -241,3 +317,20 @@ Proof.
   split; [exact He|]. split; [vm_compute; reflexivity|]. split; [exact Hs|]. split; [exact Hv|].
   repeat split; vm_compute; reflexivity.
 Qed.
+
+(* the hypotheses of C12_order_independent's result half are satisfiable together: an int-keyed map schema, an
+   argument with two entries in two orders, keys pairwise distinct; Unserialize accepts both orders and Serialize
+   accepts the result *)
+Example C12_result_hypotheses_satisfiable :
+  perm_env c12r_env c12r_env /\ nodup_env c12r_env = true /\ perm_schema c12x_schema c12x_schema /\
+  perm_val c12x_v1 c12x_v2 /\ wf_schema c12r_env c12x_schema = true /\ map_key_units no_units c12r_env c12x_schema = true /\
+  defaults_distinct no_units (e_or c12r_env) /\ keys_distinct no_units c12x_v1 /\
+  is_ok (unser [] (fun _ _ => None) 10 c12r_env c12x_schema c12x_v1) = true /\
+  is_ok (unser [] (fun _ _ => None) 10 c12r_env c12x_schema c12x_v2) = true /\
+  is_ok (serialize [] (fun _ _ => None) 10 c12r_env c12x_schema
+           (VMap (TMap (TInt I64) TStr) false [(vi64 1, vstr "a"); (vi64 2, vstr "b")])) = true.
+Proof. exact c12_result_hypotheses_satisfiable. Qed.
+
+(* keys_distinct on a string-keyed argument (the input of an object) *)
+Example C12_keys_distinct_example : keys_distinct no_units ex12_v1.
+Proof. exact c12_keys_distinct_ex_obj. Qed.
